@@ -34,7 +34,8 @@ class Valid:
 
     def sent(self):
         s = self.tags.get("SENT", "")
-        return [x for x in s.split(",") if x] if s else []
+        sep = FAMILIES[self.fam].get("sent_sep", ",")  # families whose request text contains commas name another separator
+        return [x for x in s.split(sep) if x] if s else []
 
     def seg(self):
         return [int(x) for x in self.tags.get("SEG", "").split(",") if x]
